@@ -127,7 +127,9 @@ Record core := {
   c_qs : qs;
   c_nextq : N;
   c_registered : bool;          (* channels_are_registered *)
-  c_bound : N }.                (* mem_channel_bound *)
+  c_bound : N;                  (* mem_channel_bound *)
+  c_high : N;                   (* buffered_writes_high_water *)
+  c_need : bool }.              (* channels_need_repoll *)
 
 Inductive outcome :=
 | OOk
@@ -137,25 +139,39 @@ Inductive outcome :=
 
 Definition set_phase c p := {| c_phase := p; c_out := c_out c; c_ids := c_ids c;
   c_slots := c_slots c; c_ch0 := c_ch0 c; c_qs := c_qs c; c_nextq := c_nextq c;
-  c_registered := c_registered c; c_bound := c_bound c |}.
+  c_registered := c_registered c; c_bound := c_bound c;
+  c_high := c_high c; c_need := c_need c |}.
 Definition set_out c o := {| c_phase := c_phase c; c_out := o; c_ids := c_ids c;
   c_slots := c_slots c; c_ch0 := c_ch0 c; c_qs := c_qs c; c_nextq := c_nextq c;
-  c_registered := c_registered c; c_bound := c_bound c |}.
+  c_registered := c_registered c; c_bound := c_bound c;
+  c_high := c_high c; c_need := c_need c |}.
 Definition set_qs c q := {| c_phase := c_phase c; c_out := c_out c; c_ids := c_ids c;
   c_slots := c_slots c; c_ch0 := c_ch0 c; c_qs := q; c_nextq := c_nextq c;
-  c_registered := c_registered c; c_bound := c_bound c |}.
+  c_registered := c_registered c; c_bound := c_bound c;
+  c_high := c_high c; c_need := c_need c |}.
 Definition set_slots c i s := {| c_phase := c_phase c; c_out := c_out c; c_ids := i;
   c_slots := s; c_ch0 := c_ch0 c; c_qs := c_qs c; c_nextq := c_nextq c;
-  c_registered := c_registered c; c_bound := c_bound c |}.
+  c_registered := c_registered c; c_bound := c_bound c;
+  c_high := c_high c; c_need := c_need c |}.
 Definition set_ch0 c z := {| c_phase := c_phase c; c_out := c_out c; c_ids := c_ids c;
   c_slots := c_slots c; c_ch0 := z; c_qs := c_qs c; c_nextq := c_nextq c;
-  c_registered := c_registered c; c_bound := c_bound c |}.
+  c_registered := c_registered c; c_bound := c_bound c;
+  c_high := c_high c; c_need := c_need c |}.
 Definition set_nextq c n := {| c_phase := c_phase c; c_out := c_out c; c_ids := c_ids c;
   c_slots := c_slots c; c_ch0 := c_ch0 c; c_qs := c_qs c; c_nextq := n;
-  c_registered := c_registered c; c_bound := c_bound c |}.
+  c_registered := c_registered c; c_bound := c_bound c;
+  c_high := c_high c; c_need := c_need c |}.
 Definition set_registered c b := {| c_phase := c_phase c; c_out := c_out c; c_ids := c_ids c;
   c_slots := c_slots c; c_ch0 := c_ch0 c; c_qs := c_qs c; c_nextq := c_nextq c;
-  c_registered := b; c_bound := c_bound c |}.
+  c_registered := b; c_bound := c_bound c;
+  c_high := c_high c; c_need := c_need c |}.
+
+Definition set_need c b := {| c_phase := c_phase c; c_out := c_out c; c_ids := c_ids c;
+  c_slots := c_slots c; c_ch0 := c_ch0 c; c_qs := c_qs c; c_nextq := c_nextq c;
+  c_registered := c_registered c; c_bound := c_bound c; c_high := c_high c; c_need := b |}.
+Definition set_high c h := {| c_phase := c_phase c; c_out := c_out c; c_ids := c_ids c;
+  c_slots := c_slots c; c_ch0 := c_ch0 c; c_qs := c_qs c; c_nextq := c_nextq c;
+  c_registered := c_registered c; c_bound := c_bound c; c_high := h; c_need := c_need c |}.
 
 Definition set_slot (c : core) (n : N) (s : slot) : core :=
   set_slots c (c_ids c) (ainsert n s (c_slots c)).
@@ -176,7 +192,9 @@ Definition init_core (channel_max bound : N) : core :=
      c_qs := [(0, new_queue (Some c_reply_queue_bound)); (1, new_queue (Some 1))];
      c_nextq := 2;
      c_registered := true;
-     c_bound := bound |}.
+     c_bound := bound;
+     c_high := c_default_high_water;
+     c_need := false |}.
 
 (* the listener sender a mailbox message carries, if any *)
 Definition msg_q (m : msg) : option N :=
@@ -554,11 +572,15 @@ Definition channel_message (n : N) (m : msg) (c : core) : outcome * core :=
       end
   end.
 
-(* handle_channel_readable(n), n <> 0: drain the mailbox *)
+(* handle_channel_readable(n, high), n <> 0: drain the mailbox - but stop, and owe the
+   channels a re-poll, as soon as the out-buffer is above the high-water mark (the check
+   comes before anything else in the loop, also before the slot is looked up) *)
+Definition out_len (c : core) : N := N.of_nat (length (ob (c_out c))).
 Fixpoint chan_readable (fuel : nat) (n : N) (c : core) : outcome * core :=
   match fuel with
   | O => (OOk, c)
   | S f =>
+      if c_high c <? out_len c then (OOk, set_need c true) else
       match alookup n (c_slots c) with
       | None => (OOk, c)                                   (* stale wake-up *)
       | Some s =>
